@@ -485,8 +485,10 @@ def _pattern(im, model_line):
     m = model_line.split("\t")
     mo, sp = m[0], (m[1] if len(m) > 1 else None)
     cls = lambda x: None if x is None else ("panic" if x.startswith("panic:") else x.split(":")[0])
+    # (the outcome classes are part of the pattern: a candidate the harness or the driver cannot even decode — `bad-op`,
+    #  `err:construct` — fails "differently" and is not a smaller form of the same failure)
     return (im == mo, sp is None or sp.startswith("unspecified"), sp is not None and im == sp, sp is not None and mo == sp,
-            cls(im) == "panic", mo.startswith("skip"))
+            cls(im), cls(mo), cls(sp) if sp is not None and not sp.startswith("unspecified") else None)
 
 
 def shrink(prop, exe, opline, kind, findings=(), budget_s=20.0):
